@@ -103,6 +103,114 @@ def _else_after_return(stmts):
     return out
 
 
+_LOOP_K = [0]
+
+
+def _lower_loop_returns(stmts):
+    """`for x in xs: ... return V ...` (a return inside a loop, not the tail of the function) becomes
+         hit__k = False;  for x in xs: ... [ret__k = V;] hit__k = True; break ...;  if hit__k: return V
+    so that the only returns left sit in if-trees.  When every return of the loop hands back the same constant the constant is returned after
+    the loop (no ret__k).  Loops with an else clause, returns inside an inner loop or inside try/with within the loop are left alone."""
+    out = []
+    for s in stmts:
+        if isinstance(s, ast.If):
+            s.body = _lower_loop_returns(s.body)
+            s.orelse = _lower_loop_returns(s.orelse)
+            out.append(s)
+            continue
+        if isinstance(s, (ast.For, ast.While)) and not s.orelse and _has_return(s.body):
+            rets = []
+            ok = [True]
+
+            def scan(block):
+                for t in block:
+                    if isinstance(t, ast.Return):
+                        rets.append(t)
+                    elif isinstance(t, ast.If):
+                        scan(t.body)
+                        scan(t.orelse)
+                    elif _has_return([t]):
+                        ok[0] = False
+            scan(s.body)
+            if ok[0] and rets:
+                _LOOP_K[0] += 1
+                k = _LOOP_K[0]
+                hit, ret = 'hit__%d' % k, 'ret__%d' % k
+                consts = {(type(r.value.value), r.value.value) if isinstance(r.value, ast.Constant) else None for r in rets}
+                same = len(consts) == 1 and None not in consts
+                L = lambda node, at: ast.copy_location(node, at)
+
+                def rewrite(block):
+                    res = []
+                    for t in block:
+                        if isinstance(t, ast.Return):
+                            if not same:
+                                res.append(L(ast.Assign(targets=[L(ast.Name(id=ret, ctx=ast.Store()), t)], value=t.value if t.value is not None else L(ast.Constant(value=None), t)), t))
+                            res.append(L(ast.Assign(targets=[L(ast.Name(id=hit, ctx=ast.Store()), t)], value=L(ast.Constant(value=True), t)), t))
+                            res.append(L(ast.Break(), t))
+                            break
+                        if isinstance(t, ast.If):
+                            t.body = rewrite(t.body)
+                            t.orelse = rewrite(t.orelse)
+                        res.append(t)
+                    return res
+                s.body = rewrite(s.body)
+                out.append(L(ast.Assign(targets=[L(ast.Name(id=hit, ctx=ast.Store()), s)], value=L(ast.Constant(value=False), s)), s))
+                out.append(s)
+                rv = clone(rets[0].value) if same else L(ast.Name(id=ret, ctx=ast.Load()), s)
+                out.append(L(ast.If(test=L(ast.Name(id=hit, ctx=ast.Load()), s), body=[L(ast.Return(value=rv), s)], orelse=[]), s))
+                ast.fix_missing_locations(out[-1])
+                continue
+        out.append(s)
+    return out
+
+
+def _sink_rest(stmts, budget=None):
+    """Returns that are not in tail position - `if a: if b: return X` followed by more statements - are made tail returns by copying the
+    statements that follow the if-tree into every arm of it that can fall through (continuation duplication; bounded: the copied
+    remainder is small and is copied at most 40 times).  Returns the new list, or None when a return sits in a loop / try / with or the
+    bound is hit."""
+    budget = budget if budget is not None else [2500]          # AST nodes that may be copied in total
+    out = list(stmts)
+    i = len(out) - 1
+    while i >= 0:
+        s = out[i]
+        rest = out[i + 1:]
+        if isinstance(s, ast.If) and _has_return([s]):
+            # first make the arms themselves well-formed
+            b = _sink_rest(s.body, budget)
+            o = _sink_rest(s.orelse, budget) if s.orelse else []
+            if b is None or o is None:
+                return None
+            s.body, s.orelse = b, o
+            if rest:
+                if sum(1 for r in rest for _ in ast.walk(r)) > 120:
+                    return None
+
+                def push(arm):
+                    if _all_terminate(arm):
+                        return arm
+                    if arm and isinstance(arm[-1], ast.If) and _has_return([arm[-1]]):
+                        last = arm[-1]
+                        last.body = push(last.body)
+                        last.orelse = push(last.orelse)
+                        return arm
+                    budget[0] -= rest_size
+                    return arm + [clone(r) for r in rest]
+                rest_size = sum(1 for r in rest for _ in ast.walk(r))
+                s.body = push(s.body)
+                s.orelse = push(s.orelse)
+                if budget[0] < 0:
+                    return None
+                out = out[:i + 1]
+        elif _has_return([s]) and not isinstance(s, ast.Return):
+            return None                 # a return inside a loop / try / with that is not the tail: not handled here
+        elif isinstance(s, ast.Return) and rest:
+            out = out[:i + 1]           # dead code after a return
+        i -= 1
+    return out
+
+
 def _tail_only(stmts):
     """every Return below is the last statement of a block in tail position"""
     for i, s in enumerate(stmts):
@@ -533,7 +641,12 @@ class _Flattener:
             body = body[1:]      # docstring
         body = _else_after_return(body)
         if not _tail_only(body):
-            return None
+            body = _sink_rest(_lower_loop_returns(body))
+            if body is None:
+                return None
+            body = _else_after_return(body)
+            if not _tail_only(body):
+                return None
         rets = [n for st_ in body for n in ast.walk(st_) if isinstance(n, ast.Return)]
         has_value_return = any(n.value is not None and not (isinstance(n.value, ast.Constant) and n.value.value is None) for n in rets)
         if target is not None and target != 'return' and has_value_return and _may_fall_off(body):
@@ -830,9 +943,13 @@ class _Flattener:
                             tmp = '%s__result%d' % (c.name.strip('_'), self.k)
                             pre = self.expand(call, c, ast.Name(id=tmp, ctx=ast.Store()), caller_names, stack, depth)
                             if pre is not None:
-                                nt = ast.copy_location(ast.Name(id=tmp, ctx=ast.Load()), call)
-                                s.test = ast.copy_location(ast.UnaryOp(op=ast.Not(), operand=nt), t) if neg else nt
-                                out.extend(pre)
+                                threaded = _thread_flag(pre, tmp, s, neg)
+                                if threaded is not None:
+                                    rep = self.block(threaded, caller_names, stack, depth + 1)
+                                else:
+                                    nt = ast.copy_location(ast.Name(id=tmp, ctx=ast.Load()), call)
+                                    s.test = ast.copy_location(ast.UnaryOp(op=ast.Not(), operand=nt), t) if neg else nt
+                                    out.extend(pre)
             if rep is not None:
                 out.extend(rep or [ast.copy_location(ast.Pass(), s)])
                 continue
@@ -845,6 +962,47 @@ class _Flattener:
                     h.body = self.block(h.body, caller_names, stack, depth)
             out.append(s)
         return _fold_temp_lists(out)
+
+
+def _thread_flag(pre, tmp, ifstmt, neg):
+    """pre (the expansion of a predicate helper) assigns the constants True / False to tmp at the end of every path and `if [not] tmp:` follows:
+    each `tmp = <constant>` is replaced by a copy of the arm of the if it selects - the statements the caller runs for that outcome sit where the
+    outcome is decided, as if the predicate had never been extracted.  None when pre does not have that shape (or the copies would get large)."""
+    if sum(1 for st in ifstmt.body + ifstmt.orelse for _ in ast.walk(st)) > 120:
+        return None
+    count = [0]
+
+    def leaf_ok(stmts):
+        # every path through stmts ends with `tmp = True/False` as its last statement (in tail position), tmp is assigned nowhere else
+        if not stmts:
+            return False
+        last = stmts[-1]
+        for st in stmts[:-1]:
+            if any(isinstance(n, ast.Name) and n.id == tmp for n in ast.walk(st)):
+                return False
+        if isinstance(last, ast.Assign) and len(last.targets) == 1 and isinstance(last.targets[0], ast.Name) and last.targets[0].id == tmp:
+            count[0] += 1
+            return isinstance(last.value, ast.Constant) and isinstance(last.value.value, bool)
+        if isinstance(last, ast.If):
+            if any(isinstance(n, ast.Name) and n.id == tmp for n in ast.walk(last.test)):
+                return False
+            return leaf_ok(last.body) and bool(last.orelse) and leaf_ok(last.orelse)
+        return False
+    if not leaf_ok(pre) or count[0] > 40:
+        return None
+
+    def subst(stmts):
+        last = stmts[-1]
+        if isinstance(last, ast.Assign):
+            val = last.value.value
+            taken = (not val) if neg else val
+            arm = ifstmt.body if taken else ifstmt.orelse
+            return stmts[:-1] + [clone(a) for a in arm]
+        last.body = subst(last.body)
+        last.orelse = subst(last.orelse)
+        return stmts
+    res = subst(list(pre))
+    return res or [ast.copy_location(ast.Pass(), ifstmt)]
 
 
 def _merge_parameter_copies(fn):
